@@ -59,6 +59,7 @@ var cores = []string{
 	"spin-cfor-empty", "spin-true-empty", "spin-forin-empty", "spin-recursion-quiet", "spin-forin-big", "spin-anon-expr", "block-recv-after-first",
 	"block-range-body-recv", "block-range-shared", "spin-fib", "spin-mutual",
 	"lib-spin-5", "lib-spin-v", "lib-block-5", "lib-block-v", "lib-spin-1", "lib-send", "lib-range", "lib-rec", "lib-closure",
+	"spin-quiet-elseif", "spin-quiet-else", "spin-quiet-switch", "spin-quiet-try", "spin-quiet-nested",
 	"block-fanin-send", "block-fanout-recv",
 	"block-recv-if", "block-recv-arg", "block-recv-switch",
 }
@@ -81,7 +82,7 @@ var wrapKinds = []struct {
 	k string
 	n int // number of variants
 }{
-	{"if", 3}, {"switch", 2}, {"loop", 4}, {"try-body", 5}, {"catch", 2}, {"finally", 5},
+	{"if", 5}, {"switch", 2}, {"loop", 4}, {"try-body", 8}, {"catch", 2}, {"finally", 5},
 	{"func", 7}, {"funcvar", 2}, {"anon", 2}, {"module", 1}, {"go", 5}, {"defer", 3}, {"expr", 34}, {"hostcallback", 2},
 }
 
@@ -89,6 +90,8 @@ const nExpr = 34
 
 func isSpinTick(core string) bool {
 	switch core {
+	case "spin-quiet-elseif", "spin-quiet-else", "spin-quiet-switch", "spin-quiet-try", "spin-quiet-nested":
+		return false
 	case "spin-empty", "spin-incr", "spin-continue", "spin-cfor-empty", "spin-true-empty", "spin-forin-empty", "spin-recursion-quiet", "spin-forin-big", "spin-anon-expr", "spin-fib", "spin-mutual":
 		return false
 	}
@@ -112,6 +115,17 @@ func renderCore(core string, u string) string {
 		return "func r" + u + "(n) { if n > 0 { r" + u + "(n - 1) }; tick() }\nfor { r" + u + "(3) }"
 	case "spin-empty":
 		return "for { }"
+	// functions whose body contains no call, no channel operation and no loop - except one, tucked into a branch
+	case "spin-quiet-elseif":
+		return "func q" + u + "(a) {\nif a == 0 { } else if a == 1 {\nfor { }\n} else { }\nreturn a\n}\nq" + u + "(1)"
+	case "spin-quiet-else":
+		return "func q" + u + "(a) {\nif a == 0 { return 0 } else {\nfor a > 0 { }\n}\n}\nq" + u + "(1)"
+	case "spin-quiet-switch":
+		return "func q" + u + "(a) {\nswitch a {\ncase 0:\nreturn 0\ncase 1:\nfor { }\n}\n}\nq" + u + "(1)"
+	case "spin-quiet-try":
+		return "func q" + u + "(a) {\ntry { throw \"x\" } catch e" + u + " {\nfor { }\n}\n}\nq" + u + "(1)"
+	case "spin-quiet-nested":
+		return "func q" + u + "(a) {\nif a == 0 { } else if a == 2 { } else if a == 1 {\nif a == 1 {\nfor i" + u + " = 0; true; i" + u + "++ { }\n}\n}\n}\nq" + u + "(1)"
 	case "spin-incr":
 		return "i" + u + " = 0\nfor { i" + u + "++ }"
 	case "spin-continue":
@@ -222,13 +236,17 @@ func pending(d int, u string) string {
 func wrap(w W, body, u string) string {
 	switch w.K {
 	case "if":
-		switch w.A % 3 {
+		switch w.A % 5 {
 		case 0:
 			return "if true {\n" + body + "\n}"
 		case 1:
 			return "if false { tick() } else {\n" + body + "\n}"
-		default:
+		case 2:
 			return "if false { tick() } else if true {\n" + body + "\n}"
+		case 3:
+			return "if false { } else if true {\n" + body + "\n}"
+		default:
+			return "if false { } else if false { } else if true {\n" + body + "\n} else { }"
 		}
 	case "switch":
 		if w.A%2 == 0 {
@@ -247,7 +265,14 @@ func wrap(w W, body, u string) string {
 			return "for true {\n" + body + "\n}"
 		}
 	case "try-body":
-		switch w.A % 5 {
+		switch w.A % 8 {
+		case 5:
+			// the catch block is nothing but loop control: an interruption that reaches it must not be taken for it
+			return "for {\ntry {\n" + body + "\n} catch { break }\n}"
+		case 6:
+			return "for {\ntry {\n" + body + "\n} catch { continue }\n}"
+		case 7:
+			return "func b" + u + "() {\nfor {\ntry {\n" + body + "\n} catch e" + u + " { break }\n}\n}\nb" + u + "()"
 		case 0:
 			return "try {\n" + body + "\n} catch e" + u + " { tick() }"
 		case 1:
